@@ -16,7 +16,7 @@ Ltac wfs :=
          end.
 
 (* ---- exponents *)
-Lemma exponent_ok : forall x e, eval_sxp x = Some e ->
+Lemma dim_exponent_ok : forall x e, eval_sxp x = Some e ->
   forall rest n, S (length (pr_sxp x ++ rest)) <= n -> dimension_exponent_n n (pr_sxp x ++ rest) = Ok e rest.
 Proof.
   induction x; intros e H rest n Hn; (destruct n; [simpl in Hn; lia|]); cbn [pr_sxp eval_sxp] in *.
@@ -44,7 +44,7 @@ Qed.
 
 Lemma exponent_top : forall x e rest, eval_sxp x = Some e ->
   dimension_exponent (pr_sxp x ++ rest) = Ok e rest.
-Proof. intros. unfold dimension_exponent. apply exponent_ok; auto. Qed.
+Proof. intros. unfold dimension_exponent. apply dim_exponent_ok; auto. Qed.
 
 (* ---- sizes and nesting depth *)
 Fixpoint ysize (t : sty) : nat :=
